@@ -347,6 +347,12 @@ def replay_er(ctx, body):
     from core import Cfg
 
     cfg = Cfg(**{k: (tuple(v) if k == "flow" and v is not None else v) for k, v in body["cfg"].items()})
+    if body.get("mismatch"):
+        import checks_b
+
+        got = checks_b.mismatch_outcome(cfg, [parse_stmt_tok(t) for t in body["stmts"]], body["data"], body["entry"])
+        print("outcome:", got)
+        return body["property_violation"]["what"] if got[0] == "lost" else None
     case = {"cfg": cfg, "stmts": [parse_stmt_tok(t) for t in body["stmts"]], "ns": [tuple(x) for x in body.get("ns", [])],
             "data": body["data"], "entry": body["entry"], "oracles": ["roundtrip", "spec", "flushed"]}
     case.update(body.get("extra", {}))
